@@ -217,6 +217,7 @@ func (m *Manager) manageReader() {
 	var pkt drpcwire.Packet
 	var err error
 	var run int
+	var invoked uint64 // stream id of the last invoke forwarded to NewServerStream
 
 	for !m.sigs.term.IsSet() {
 		// if we have a run of "small" packets, drop the buffer to release
@@ -263,6 +264,10 @@ func (m *Manager) manageReader() {
 				curr.Cancel(context.Canceled)
 			}
 
+			if pkt.Kind == drpcwire.KindInvoke {
+				invoked = pkt.ID.Stream
+			}
+
 			select {
 			case m.pkts <- pkt:
 				m.pdone.Recv()
@@ -277,6 +282,13 @@ func (m *Manager) manageReader() {
 		default:
 			if curr != nil && !curr.IsTerminated() {
 				curr.Cancel(context.Canceled)
+			}
+
+			// no stream will ever be created for a packet whose invoke was
+			// never seen (for example a soft cancel sent before the invoke),
+			// so drop it instead of waiting forever.
+			if pkt.ID.Stream != invoked {
+				break
 			}
 
 			if !m.sbuf.Wait(curr.ID()) {
